@@ -4,7 +4,9 @@ import (
 	"context"
 	"fmt"
 	"net"
+	"os"
 	"strings"
+	"sync"
 	"time"
 
 	"github.com/cloudwego/kitex/pkg/discovery"
@@ -231,7 +233,7 @@ var _ = net.JoinHostPort
 // the version string of the previous push (a restarted control plane) for new content. Every resolution returns exactly
 // what the control plane listed last for that cluster.
 func c10History(c *ctx) {
-	w, err := newWorld(worldOpts{ndsNotRequired: true, fetchTimeout: 3 * time.Second})
+	w, err := newWorld(worldOpts{ndsNotRequired: true, fetchTimeout: 1200 * time.Millisecond})
 	if err != nil {
 		fmt.Println("C10: world:", err)
 		return
@@ -255,16 +257,27 @@ func c10History(c *ctx) {
 		"cluster-a": {Name: "cluster-a", Type: "EDS", ServiceName: "svc-eds"},
 		"cluster-b": {Name: "cluster-b", Type: "EDS", ServiceName: "other-eds"},
 	}
+	var lmu sync.Mutex // guards what the control plane lists (read by resolutions that run in their own goroutine)
 	current := map[string]*gCLA{}
 	ver := 0
+	lastNonce := map[string]string{} // the nonce of the latest response of a type on the stream
+	present := map[string]bool{}     // clusters the control plane currently lists
 	pushEDS := func(v string, as ...*gCLA) {
 		var anys []*anypb.Any
+		lmu.Lock()
 		for _, a := range as {
 			anys = append(anys, mustAny(a.proto()))
 			current[a.Name] = a
 		}
+		lmu.Unlock()
 		ver++
-		w.feed(mkResp(urlOf("eds"), v, fmt.Sprintf("en%d", ver), anys))
+		lastNonce["eds"] = fmt.Sprintf("en%d", ver)
+		w.feed(mkResp(urlOf("eds"), v, lastNonce["eds"], anys))
+	}
+	pushBadEDS := func(v string) {
+		ver++
+		lastNonce["eds"] = fmt.Sprintf("en%d", ver)
+		w.feed(mkResp(urlOf("eds"), v, lastNonce["eds"], []*anypb.Any{{TypeUrl: urlOf("eds"), Value: []byte{0xff, 0xff, 0xff, 0x0f}}}))
 	}
 	pushCDS := func(v string, names ...string) {
 		var anys []*anypb.Any
@@ -272,13 +285,31 @@ func c10History(c *ctx) {
 			anys = append(anys, mustAny(clusters[n].proto()))
 		}
 		ver++
-		w.feed(mkResp(urlOf("cds"), v, fmt.Sprintf("cn%d", ver), anys))
+		lastNonce["cds"] = fmt.Sprintf("cn%d", ver)
+		lmu.Lock()
+		for k := range present {
+			delete(present, k)
+		}
+		for _, n := range names {
+			present[n] = true
+		}
+		lmu.Unlock()
+		w.feed(mkResp(urlOf("cds"), v, lastNonce["cds"], anys))
 	}
+	// the control plane follows the protocol: it answers a subscription only when the request that carries it echoes the
+	// nonce of the latest response of that type on the stream (a request with an outdated nonce is ignored)
 	waitInterest := func(rt, name string) bool {
 		return w.waitFor(func() bool {
-			for _, n := range w.m.VerifInterest()[rtOf(rt)] {
-				if n == name {
-					return true
+			w.ads.mu.Lock()
+			defer w.ads.mu.Unlock()
+			for _, q := range w.ads.log {
+				if q.req.TypeUrl != urlOf(rt) || q.req.ResponseNonce != lastNonce[rt] {
+					continue
+				}
+				for _, n := range q.req.ResourceNames {
+					if n == name {
+						return true
+					}
 				}
 			}
 			return false
@@ -297,35 +328,66 @@ func c10History(c *ctx) {
 		to := rpcinfo.NewEndpointInfo("the-service", "m", nil, nil)
 		o["target"] = xdssuite.NewXDSResolver().Target(context.Background(), to)
 		nj := obj{}
+		lmu.Lock()
 		for nm, a := range current {
 			nj[nm] = a.json()
 		}
+		isPresent := present[desc]
+		lmu.Unlock()
 		c.count("history.resolutions", 1)
-		c.emit(obj{"op": "resolve", "desc": desc, "cluster": clusters[desc].json(), "named": nj, "tagged": false, "history": step, "obs": o})
+		var cj interface{}
+		if isPresent {
+			cj = clusters[desc].json()
+		}
+		c.emit(obj{"op": "resolve", "desc": desc, "cluster": cj, "named": nj, "tagged": false, "history": step, "obs": o})
 	}
-	// a. cluster-a: subscribed by the resolution itself, then its endpoints
+	// a. cluster-a: subscribed by the resolution itself, then its endpoints (what the control plane lists is fixed before
+	// the resolution starts; whether it SENDS it depends on the requests it receives)
+	a1 := mkCLA("svc-eds", 1)
+	lmu.Lock()
+	present["cluster-a"] = true
+	current[a1.Name] = a1
+	lmu.Unlock()
 	done := make(chan struct{})
 	go func() { resolve("cluster-a", "first resolution of cluster-a"); close(done) }()
-	if !waitInterest("cds", "cluster-a") {
-		return
+	// (when no acceptable request arrives the control plane - rightly - sends nothing; what it lists is recorded all the
+	// same, and the resolution is judged against it)
+	ignored := func(rt, what string) {
+		c.count("history.requests-ignored-by-the-control-plane", 1)
+		fmt.Fprintf(os.Stderr, "C10 history: no %s request for %s with the current nonce %q reached the control plane\n", rt, what, lastNonce[rt])
 	}
-	pushCDS("1", "cluster-a")
-	if !waitInterest("eds", "svc-eds") {
-		return
+	if waitInterest("cds", "cluster-a") {
+		pushCDS("1", "cluster-a")
+	} else {
+		ignored("cds", "cluster-a")
 	}
-	pushEDS("1", mkCLA("svc-eds", 1))
+	if waitInterest("eds", "svc-eds") {
+		pushEDS("1", a1)
+	} else {
+		ignored("eds", "svc-eds")
+	}
 	<-done
-	// b. cluster-b likewise (the cluster response is complete: both clusters)
+	// b. cluster-b likewise (the cluster response is complete: both clusters); just before, an endpoint response is
+	// REJECTED (one undecodable resource): the subscription that follows still echoes that response's nonce
+	pushBadEDS("1b")
+	w.settle()
+	b2 := mkCLA("other-eds", 2)
+	lmu.Lock()
+	present["cluster-b"] = true
+	current[b2.Name] = b2
+	lmu.Unlock()
 	done = make(chan struct{})
 	go func() { resolve("cluster-b", "first resolution of cluster-b"); close(done) }()
-	if !waitInterest("cds", "cluster-b") {
-		return
+	if waitInterest("cds", "cluster-b") {
+		pushCDS("2", "cluster-a", "cluster-b")
+	} else {
+		ignored("cds", "cluster-b")
 	}
-	pushCDS("2", "cluster-a", "cluster-b")
-	if !waitInterest("eds", "other-eds") {
-		return
+	if waitInterest("eds", "other-eds") {
+		pushEDS("2", b2)
+	} else {
+		ignored("eds", "other-eds")
 	}
-	pushEDS("2", mkCLA("other-eds", 2))
 	<-done
 	// c. an update handler of the endpoint type is slow; three partial pushes for different names arrive back to back
 	w.m.RegisterXDSUpdateHandler(xdsresource.EndpointsType, func(map[string]xdsresource.Resource) { time.Sleep(15 * time.Millisecond) })
@@ -345,4 +407,13 @@ func c10History(c *ctx) {
 	w.settle()
 	time.Sleep(60 * time.Millisecond)
 	resolve("cluster-b", "after a push that re-uses the previous version string for new endpoints")
+	// e. the control plane removes cluster-a, later lists it again with other endpoints
+	pushCDS("6", "cluster-b")
+	w.settle()
+	resolve("cluster-a", "while the control plane does not list the cluster")
+	pushCDS("7", "cluster-a", "cluster-b")
+	pushEDS("8", mkCLA("svc-eds", 8))
+	w.settle()
+	time.Sleep(60 * time.Millisecond)
+	resolve("cluster-a", "after the cluster was removed and listed again with new endpoints")
 }
